@@ -386,10 +386,15 @@ def interp_mixed_cubic_section(ctx):
                 "level": "conversion error of a scaled cubic in a mixed glyph"}
         ctx.count(); ctx.klass("interpolatable mixed glyph, cubic base scaled by %s" % sc); ctx.nontriv(("imc", i, ctx.scale))
         try:
-            outs = list(ufo2ft.compileInterpolatableTTFs([build_font(m, lib) for m in masters], useProductionNames=False))
+            # (every other family with a CONFIGURED conversion error of 0.0002 em = 0.2 units: the master fonts keep unrounded
+            # coordinates, so the configured error is what bounds the distance)
+            err = 0.0002 if i % 2 == 1 else None
+            outs = list(ufo2ft.compileInterpolatableTTFs([build_font(m, lib) for m in masters], useProductionNames=False,
+                                                         **({"cubicConversionError": err} if err else {})))
         except Exception as e:
             ctx.spec_failure(case, "compileInterpolatableTTFs raised %s: %s\n%s" % (type(e).__name__, e, traceback.format_exc()[-1000:]))
             continue
+        bound = 1000 * err * max(1.0, abs(float(sc))) if err else 1.0
         for k, tt in enumerate(outs):
             polys = flatten_tt(tt, "mixed", steps=200)
             if polys is None:
@@ -407,10 +412,10 @@ def interp_mixed_cubic_section(ctx):
                         p = cubic_pt(cur, c1, c2, end, j / 40)
                         worst = max(worst, min(dist_to_polyline(p, poly) for poly in polys))
                 cur = f(tuple(map(float, sg[-1])))
-            if worst > 1.0 + 0.05:
-                ctx.spec_failure(dict(case, master=k, distance=worst),
+            if worst > bound + 0.05:
+                ctx.spec_failure(dict(case, master=k, distance=worst, cubicConversionError=err),
                                  "master %d: the quadratic spline of the decomposed glyph is %.3f units from the source cubic as placed by the component (scale %s); "
-                                 "the conversion error is 1.000" % (k, worst, sc))
+                                 "the conversion error is %.3f" % (k, worst, sc, bound))
                 break
 
 
